@@ -11,7 +11,7 @@ from . import common, tlc, tracecheck
 T_FACTORY = {
     "C03": (["T_C03_EdgeContents", "T_C03_PalletContents", "T_C03_NodeRefs", "T_C03_Counts", "T_C03_Quiescent"],
             ["T_C03_PutFromHolder", "T_C03_GetFromEdge"]),
-    "C08": (["T_C08_Cap", "T_C08_DrawnAtPull", "T_C08_OfferedWhenDue", "T_C08_HeldOnlyIfFull"], ["T_C08_Offer", "T_C08_DrawOnce"]),
+    "C08": (["T_C08_Cap", "T_C08_DrawnAtPull", "T_C08_OfferedWhenDue", "T_C08_HeldOnlyIfFull", "T_C08_AfterSetup"], ["T_C08_Offer", "T_C08_DrawOnce"]),
     "C09": (["T_C09_BlockingNoDiscard", "T_C09_NonBlockingNow"], ["T_C09_Decision", "T_C09_DiscardByOne"]),
     "C10": (["T_C10_GrantedUsed", "T_C10_NoOrphan", "T_C10_ChooseOne", "T_C10_TakeInput", "T_C10_PushOutput"], []),
     "C15": (["T_C15_Recorded"], ["T_C15_FirstAvail", "T_C15_InPolicy", "T_C15_OutPolicy", "T_C15_PutWhereOffered"]),
